@@ -95,6 +95,11 @@ class ModuleMixin(SubModuleDictMixin):
     @property
     @inference_state_method_cache()
     def name(self):
+        if self.string_names is None:
+            # A file that is not reachable from the sys path (e.g. found by a
+            # search through the project folder) has no dotted name.
+            path = self.py__file__()
+            return self._module_name_class(self, '__main__' if path is None else path.stem)
         return self._module_name_class(self, self.string_names[-1])
 
     @inference_state_method_cache()
